@@ -9,7 +9,7 @@ pub const DEF: PropDef = PropDef {
     id: "C05",
     run,
     oracle,
-    rule: "cases = RFC 7011-conformant IPFIX streams built from a generated plan: template pool (2..5 ids, plain and options templates with scope counts, 1..12 fields: typed, unknown, enterprise-specific (E bit + enterprise number), fixed widths 1/2/3/4/8/16, zero-length octet/string elements (<= 2 per template), variable-length elements in 1-byte and 3-byte length form incl. lengths 0, 254, 255, 256), histories of 1..5 calls, 1..3 messages per call, 1..6 sets per message in any order, 0..40 records per data set with differing record sizes, padding 0..3 shorter than the shortest record, V5/V7 packets interleaved. Oracle = independent RFC 7011 reference decoder + template-cache model: message header, every template / options-template record (element ids without E bit, lengths, enterprise numbers), every data set's flat (index, element, value) sequence, padding, set count in order; cache = model after every call. strict phase: one template record per template set; wide phase adds several template records per set (D7) which must match the finding's signature exactly. non-trivial = >= 1 data set with >= 2 records under a template with >= 2 fields; distinct by digest.",
+    rule: "cases = RFC 7011-conformant IPFIX streams built from a generated plan: template pool (2..5 ids, plain and options templates with scope counts, 1..12 fields: typed, unknown, enterprise-specific (E bit + enterprise number), fixed widths 1/2/3/4/8/16, zero-length octet/string elements (<= 2 per template), variable-length elements in 1-byte and 3-byte length form incl. lengths 0, 254, 255, 256), histories of 1..5 calls, 1..3 messages per call, 1..6 sets per message in any order, 0..40 records per data set with differing record sizes, padding 0..7 shorter than the shortest record, V5/V7 packets interleaved. Oracle = independent RFC 7011 reference decoder + template-cache model: message header, every template / options-template record (element ids without E bit, lengths, enterprise numbers), every data set's flat (index, element, value) sequence, padding, set count in order; cache = model after every call. strict phase: one template record per template set; wide phase adds several template records per set (D7) which must match the finding's signature exactly. non-trivial = >= 1 data set with >= 2 records under a template with >= 2 fields; distinct by digest.",
     assumptions: &["which data type an element has is taken from the library's public lookup (pinned by the suite's lookup snapshots); slicing and interpretation are the harness' own"],
 };
 
